@@ -45,6 +45,9 @@ C["C20"] = dict(
 C["C10"] = dict(
     text="7 scenarios on a real pair (close from a plain goroutine; both ends at once; Close repeated concurrently on one end; server closes and the client waits for the end; server in callback mode with client close, with a local Close from another goroutine, with Close from inside OnData): every schedule with <= 2 (quick) / <= 3 (thorough) deviations; oracles: state word only moves forward (checked at every atomic operation on it), after a local Close Flush-with-data fails with ErrStreamClosed, reads fail with a closed-stream error, the stream is not active; the peer drains what was flushed before the close, then reads ErrEndOfStream (within 5 virtual seconds) and its Flush fails; exactly one of OnLocalClose/OnRemoteClose per stream end",
     note=NOTE_B, technique=TECH_B, design="DESIGN.md section 4 C10")
+C["C07"] = dict(
+    text="7 scenarios on a real pair: one stream shm+shm+close, shm+fallback+sticky-fallback+close, fallback+close, two concurrent streams with mixed transports, request/response, and callback-mode readers (data then close; two streams): keyed payloads (byte i of stream k is a function of (k,i)); every schedule with <= 2/1 (quick) / <= 3/2 (thorough) deviations; oracles: each reader receives only its own stream's bytes in flush order and is told the stream ended only after every byte flushed before the close was offered",
+    note=NOTE_B + "; the callback-mode data-then-close defect D10 is a recorded known finding", technique=TECH_B, design="DESIGN.md section 4 C07")
 NA = {}
 m = {
     "version": 1,
